@@ -1,6 +1,7 @@
 package rules
 
 import (
+	"os"
 	"fmt"
 	"go/token"
 	"go/types"
@@ -230,6 +231,12 @@ func ruleSummaryRendering(c *Ctx, rule string) {
 			})
 		})
 	}
+	if !goodKeep {
+		// not the familiar shape: evaluate the renderer for a generic method whose bit is set / not set
+		if decided, ok := renderKeepsByEvaluation(c, r, tableAP, memoAP); decided {
+			goodKeep = ok
+		}
+	}
 	c.R.Add(rule, c.fk(r), "render:keeps-method-iff-bit-set", c.P.Pos(r.Pos()), goodKeep, ifelse(goodKeep, "a method is rendered exactly when its bit is set in the summary", "the renderer does not keep a method exactly when its bit is set: the rendered set differs from the summary"))
 	okJoin, okStore := false, false
 	for _, fn := range renderFuncs {
@@ -256,6 +263,15 @@ func ruleSummaryRendering(c *Ctx, rule string) {
 			}
 		}
 		c.R.Add(rule, rd.key, "reads:memo[summary(recv)]."+rd.field, c.P.Pos(f.Pos()), good, ifelse(good, "returns the ."+rd.field+" of the memo entry of the receiver's own summary", rd.key+" does not return the rendered entry of the receiver's own summary"))
+		if rd.field == "methods" {
+			copied := true
+			for _, ret := range an.Returns(f) {
+				if !isCloneCall(ret.Results[0]) {
+					copied = false
+				}
+			}
+			c.R.Add(rule, rd.key, "hands-out:copy-of-memo-list", c.P.Pos(f.Pos()), copied, ifelse(copied, "the caller receives its own copy of the method list", "the caller receives the slice stored in the process-wide memo itself: writing into it (sorting, filtering in place) changes Methods(), Routes() and the CORS method test of every pattern with that method set in every router of the process"))
+		}
 	}
 	goodRt, nRt := true, 0
 	var rtAt ssa.Instruction
@@ -269,6 +285,8 @@ func ruleSummaryRendering(c *Ctx, rule string) {
 		if !(ok && field == "methods" && (node == want || node == "recv" && want == "recv")) {
 			goodRt = false
 		}
+		copied := isCloneCall(mu.Value)
+		c.R.Add(rule, c.fk(mu.Parent()), "lists:copy-of-memo-list", c.pos(mu), copied, ifelse(copied, "Routes() hands out copies of the method lists", "Routes() hands out the slices stored in the process-wide memo: a caller that edits its result changes the method lists every router reports"))
 	}
 	if nRt == 0 {
 		c.R.Add(rule, c.fk(c.A.TreeRoutes), "lists:memo[summary(recv)].methods", c.P.Pos(c.A.TreeRoutes.Pos()), false, "Routes() lists nothing")
@@ -298,6 +316,11 @@ func (c *Ctx) memoEntryField(v ssa.Value, depth int) (node, field string, ok boo
 		return "", "", false
 	}
 	switch x := v.(type) {
+	case *ssa.Call:
+		// a copy of the entry's list: slices.Clone(entry.methods)
+		if n := an.CalleeName(&x.Call); (n == "slices.Clone" || n == "bytes.Clone") && len(x.Call.Args) == 1 {
+			return c.memoEntryField(x.Call.Args[0], depth+1)
+		}
 	case *ssa.Field:
 		n, isEntry := c.memoEntry(x.X, depth)
 		if !isEntry {
@@ -383,4 +406,96 @@ func (c *Ctx) summaryOf(v ssa.Value, depth int) (node string, ok bool) {
 		return an.AP(call.Call.Args[0]), true
 	}
 	return "", false
+}
+
+// renderKeepsByEvaluation evaluates the memo renderer symbolically for one generic method M with bit BIT — the
+// element of whatever collection the renderer walks (the bit table itself, the list of methods with the bit looked
+// up in the table, or the list `Methods` with the bit computed as 1<<position, which is how the table is built) —
+// once with "BIT is set in the summary value" and once with "it is not". On every path that stores the memo entry
+// the method must have been appended in the first scenario and must not have been in the second.
+func renderKeepsByEvaluation(c *Ctx, r *ssa.Function, tableAP, memoAP string) (decided, ok bool) {
+	table := "GLOBAL:" + tableAP[strings.LastIndexByte(tableAP, '.')+1:]
+	memo := "GLOBAL:" + memoAP[strings.LastIndexByte(memoAP, '.')+1:]
+	results := map[bool][]bool{}
+	for _, set := range []bool{true, false} {
+		set := set
+		se := &symEval{c: c}
+		se.elem = func(coll string) string {
+			switch {
+			case coll == table:
+				return "BIT"
+			case strings.HasPrefix(coll, "GLOBAL:"):
+				return "M"
+			}
+			return ""
+		}
+		se.nonEmpty = func(coll string) bool { return strings.HasPrefix(coll, "GLOBAL:") }
+		se.norm = func(e string) string {
+			switch e {
+			case "KEY(" + table + ")":
+				return "M"
+			case "LOOKUP(" + table + ",M)", "SHL(CONST:1,CONST:0)":
+				return "BIT"
+			}
+			return e
+		}
+		se.truth = func(e string) int {
+			b := func(v bool) int { return pm(v == set) }
+			for _, and := range []string{"AND(INDEX,BIT)", "AND(BIT,INDEX)"} {
+				switch e {
+				case "EQ(" + and + ",BIT)", "EQ(BIT," + and + ")", "NE(" + and + ",CONST:0)", "GT(" + and + ",CONST:0)", "NE(CONST:0," + and + ")":
+					return b(true)
+				case "NE(" + and + ",BIT)", "NE(BIT," + and + ")", "EQ(" + and + ",CONST:0)", "EQ(CONST:0," + and + ")", "LE(" + and + ",CONST:0)":
+					return b(false)
+				}
+			}
+			return 0
+		}
+		for _, o := range se.outcomes(r, []sval{sv("INDEX")}) {
+			if os.Getenv("MUXLINT_DEBUG_RENDER") != "" {
+				println("RENDER", set, o.String())
+			}
+			if strings.Contains(o.ret, "UNK:budget") || strings.Contains(o.ret, "UNK:depth") {
+				return false, false
+			}
+			stores, kept := false, false
+			for _, e := range o.effects {
+				if strings.HasPrefix(e, "MAPSET "+memo+"[INDEX]") {
+					stores = true
+				}
+				if strings.HasPrefix(e, "STORE ELEM(") && strings.HasSuffix(e, " = M") {
+					kept = true
+				}
+			}
+			if stores {
+				results[set] = append(results[set], kept)
+			}
+		}
+	}
+	if len(results[true]) == 0 || len(results[false]) == 0 {
+		return false, false
+	}
+	for _, k := range results[true] {
+		if !k {
+			return true, false
+		}
+	}
+	for _, k := range results[false] {
+		if k {
+			return true, false
+		}
+	}
+	return true, true
+}
+
+func isCloneCall(v ssa.Value) bool {
+	call, ok := v.(*ssa.Call)
+	if !ok {
+		return false
+	}
+	switch an.CalleeName(&call.Call) {
+	case "slices.Clone", "slices.Concat", "builtin:append":
+		return true
+	}
+	return false
 }
